@@ -193,6 +193,10 @@ def job(j):
 
 
 def run(tier, seed, rep):
+    # histories of several requests on one object under the full fault alphabet (mc/sessions.py)
+    from .. import sessions
+    _ses = sessions.explore_sessions(tier, seed, {'C10'}, light=True)
+    rep.add_many([v for v in _ses.violations if v['prop'] == 'C10'])
     depth = 4 if tier == 'thorough' else 3
     jobs = [(dict(transport=tr, ka=ka, T=1, R=R), depth) for tr in ('udp', 'tcp') for ka in (False, True)
             for R in ((0, 1, 2) if tier == 'thorough' else (1,))]
@@ -206,7 +210,8 @@ def run(tier, seed, rep):
         fixes += bool(fix)
         per.append(dict(cfg=j[0], histories=st.executions, states=len(st.states), fixpoint_below_depth=fix))
     rep.add_many(total.violations)
-    cov = dict(states=len(total.states), transitions=len(total.edges), executions=total.executions,
+    cov = dict(session_histories=_ses.executions, session_states=len(_ses.states), session_choice_points=_ses.choice_points,
+               states=len(total.states), transitions=len(total.edges), executions=total.executions,
                traces_validated_against_impl=total.executions, exhaustive=True,
                bound=f'BFS over histories of <= {depth} operations (requests with fault scripts, close(), new event '
                      f'loop, idle) with fingerprint de-duplication; invariant evaluated at every transmission, connect '
@@ -219,5 +224,10 @@ def run(tier, seed, rep):
 
 
 def replay(r):
+    if r.get('part') == 'session':
+        from .. import sessions
+        out = sessions.replay(r)
+        out['violations'] = [m for m in out['violations'] if m[0] == 'C10']
+        return out
     v, _, _ = run_history(r['cfg'], r['history'])
     return dict(history=r['history'], violations=v)
